@@ -551,6 +551,41 @@ class Escape:
             for inv in self._invs[id(ci)]:
                 if inv <= set(lits):
                     return True
+        # (b2) `t.is_alive()` right after an unconditional `t.join()` without a timeout is False
+        for text, pol in lits:
+            if pol and text.endswith(".is_alive()"):
+                recv = text[:-len(".is_alive()")]
+                cfg_ = self.cfg(fd)
+                tgt_ = cfg_.node_of(st)
+                for c_ in ast.walk(fd):
+                    if isinstance(c_, ast.Call) and isinstance(c_.func, ast.Attribute) and c_.func.attr == "join" \
+                            and canon(c_.func.value) == recv and not c_.args and not c_.keywords:
+                        try:
+                            if cfg_.dominates(cfg_.node_of(c_), tgt_):
+                                return True
+                        except AnalysisError:
+                            pass
+        # (b3) a comparison of a parameter with a constant, decided by the integer constant the call chain passes
+        for text, pol in lits:
+            m_ = _re.fullmatch(r"(\w+) (<|==) (-?\d+)", text) or _re.fullmatch(r"(-?\d+) (<|==) (\w+)", text)
+            if not m_:
+                continue
+            a_, op_, b_ = m_.groups()
+            if a_.lstrip("-").isdigit():
+                name_, val_ = b_, taint.get("$const:" + b_)
+                if val_ is None:
+                    continue
+                truth = (int(a_) < val_) if op_ == "<" else (int(a_) == val_)
+            else:
+                name_, val_ = a_, taint.get("$const:" + a_)
+                if val_ is None:
+                    continue
+                truth = (val_ < int(b_)) if op_ == "<" else (val_ == int(b_))
+            # the parameter must not be rebound in the function
+            if any(isinstance(x, ast.Name) and x.id == name_ and isinstance(x.ctx, (ast.Store, ast.Del)) for x in ast.walk(fd)):
+                continue
+            if truth != pol:
+                return True
         # (c) the guard contradicts what the caller established about the argument (not None / truthy)
         for text, pol in lits:
             if pol and text.startswith("None is ") and taint.get("$notnone:" + text[8:]):
@@ -604,9 +639,12 @@ class Escape:
             meth = None
             if isinstance(it, ast.Call) and isinstance(it.func, ast.Attribute) and it.func.attr in ("items", "values", "keys") and not it.args:
                 meth, it = it.func.attr, it.func.value
-            if not (isinstance(it, ast.Attribute) and isinstance(it.value, ast.Name) and it.value.id in ("self", "cls") and ci is not None):
+            if isinstance(it, (ast.Tuple, ast.List, ast.Dict)):
+                v_ = it             # a literal table written in place
+            elif not (isinstance(it, ast.Attribute) and isinstance(it.value, ast.Name) and it.value.id in ("self", "cls") and ci is not None):
                 return None
-            c_, v_ = self.repo.find_attr(ci, it.attr)
+            else:
+                c_, v_ = self.repo.find_attr(ci, it.attr)
             if v_ is None:
                 return None
             try:
@@ -679,9 +717,16 @@ class Escape:
         if fname == "time.sleep" and any(kinds):
             self.site("sleep", "ValueError", n, mod, ci, fd, "%s (duration from received data)" % canon(n), stack, chain)
             return
+        if fname == "next" and n.args:
+            # next(it, default) is total; next(it) raises StopIteration on an exhausted iterator
+            for a_ in n.args:
+                self.expr(a_, st, ci, mod, fd, taint, stack, chain)
+            if len(n.args) == 1 and any(kinds):
+                self.site("next", "StopIteration", n, mod, ci, fd, "%s of a possibly empty selection" % canon(n)[:50], stack, chain)
+            return
         if fname in ("setattr", "getattr", "hasattr") and n.args:
             # dynamic attribute access: total; a tainted value stored through setattr is an attribute store under
-            # every name the (folded) name expression can take
+            # every name the (folded) name expression can take (whatever object it is stored on)
             if fname == "setattr" and len(n.args) == 3 and self.expr_tainted(n.args[2], taint, ci, mod):
                 names = self.possible_strs(n.args[1], fd, ci, mod)
                 if names is None:
@@ -717,6 +762,12 @@ class Escape:
                     ty = self.static_type(kw_.value, fd, taint)
                     if ty:
                         t2["$type:" + kw_.arg] = ty
+            # integer constants passed as arguments (e.g. the argument count of verify_cmd)
+            for i_, a_ in enumerate(as_):
+                if i_ < len(pn_) and isinstance(a_, ast.Constant) and isinstance(a_.value, int) and not isinstance(a_.value, bool):
+                    t2["$const:" + pn_[i_]] = a_.value
+                elif i_ < len(pn_) and isinstance(a_, ast.Name) and ("$const:" + a_.id) in taint:
+                    t2["$const:" + pn_[i_]] = taint["$const:" + a_.id]
             # what the caller's guards say about plain-name arguments: truthy / not None
             try:
                 cl_ = guard_literals(self.cfg(fd), self.cfg(fd).node_of(n))
